@@ -26,3 +26,14 @@ def match(known, pid, clause, line, verdict):
         if fn and fn(line, verdict):
             return k
     return None
+
+
+@sig("dh_mixed_formats_exit0")
+def dh_mixed_formats_exit0(line, verdict):
+    """F4b: verify -dh exits 0 on a changed tree while the loaded histories use non-uniform formats"""
+    return (
+        line["op"]["op"] == "verifydh"
+        and line["exit"] == 0
+        and verdict.get("A_changed") is True
+        and verdict.get("A_uniform") is False
+    )
